@@ -248,6 +248,7 @@ def parseCOp : List String → Option Custom.Op
   | ["copen", "mem"] => some (.openS .mem)
   | ["copen", "http"] => some (.openS .http)
   | ["copen", "cli"] => some (.openS .cli)
+  | ["copen", "hnew"] => some (.openS .hnew)
   | ["chs", k] => k.toNat?.map .hs
   | ["ccall", k, n, id, shape] => do
     let k ← k.toNat?
@@ -299,6 +300,7 @@ def cclauseText (op : Custom.Op) (impl : String) : Custom.Clause → String
     | .dropped => s!"C02: call of the REGISTERED custom method {name} on an initialized session received no response bearing its id (dropped): {impl}"
     | .unknownCode => s!"C02: call of the unknown method {name} not answered method-not-found (-32601; a 4xx without a message where the HTTP transport pre-validates): {impl}"
     | .paramsCode => s!"C02: undecodable params of the registered custom method {name} not answered -32602 (or its handler ran): {impl}"
+    | .modernNoMeta => s!"C06: custom method {name} was served under the 2026-07-28 protocol although its params carry no per-request metadata: {impl}"
     | .ranTwice => s!"C02: the handler of the custom method {name} ran more than once for one call"
     | .unreadable => "C02: unreadable observation"
 
